@@ -58,10 +58,14 @@ def _heap(maxheap):
 
 
 def _plain_key(node, maxheap):
+    """The plain integer key of a heap node (a max-heap wraps keys in ReversedComparator; however often it did so, the
+    observation is the integer inside, or -1 if there is none)."""
     k = node.key
-    if maxheap:
-        k = k.key
-    return k
+    for _ in range(8):
+        if isinstance(k, int):
+            return k
+        k = getattr(k, "key", None)
+    return k if isinstance(k, int) else -1
 
 
 def execute(ops, maxheap, follow=None):
@@ -107,6 +111,10 @@ def execute(ops, maxheap, follow=None):
                     node = nodes[o["id"]]
                     heap.decrease_key(node, ReversedComparator(o["key"]) if maxheap else o["key"])
                     trace.append({"op": "dec", "id": o["id"], "key": o["key"], "len": len(heap), "truth": bool(heap)})
+                elif op == "clear":
+                    heap.clear()
+                    live.clear()
+                    trace.append({"op": "clear", "len": len(heap), "truth": bool(heap)})
                 elif op == "rem":
                     node = nodes[o["id"]]
                     heap.remove(node)
@@ -134,6 +142,11 @@ def run_program_adaptive(r, length, keys, maxheap):
         with deadline(20.0):
             for _ in range(length):
                 c = r.random()
+                if r.random() < 0.04:
+                    heap.clear()
+                    livekeys.clear()
+                    trace.append({"op": "clear", "len": len(heap), "truth": bool(heap)})
+                    continue
                 if not livekeys or c < 0.38:
                     k = r.choice(keys)
                     nodes[nid] = heap.push(Item(nid, k))
